@@ -23,6 +23,8 @@ func init() {
 		Run: runC01,
 		Controls: []Control{
 			{Name: "path-removed-by-tie-test", File: "route/route.go", Old: "\t\tif paths[j].Compare(remove) {\n", New: "\t\tif paths[j].Equal(remove) {\n", Expect: "removal-matches-by-full-comparison"},
+			{Name: "walker-called-on-a-missing-child", File: "routingtable/trie.go", Old: "\tif n.l != nil {\n\t\tres = n.l.dumpPfxs(res)\n\t}\n", New: "\tres = n.l.dumpPfxs(res)\n", Expect: "nil-child-keeps-the-accumulator"},
+			{Name: "replace-propagates-after-failure", File: "routingtable/locRIB/loc_rib.go", Old: "\t\tlog.Errorf(\"unable to replace path: %v\", err)\n\t\treturn\n", New: "\t\tlog.Errorf(\"unable to replace path: %v\", err)\n", Expect: "replace-is-one-step"},
 			{Name: "removal-drops-every-match", File: "route/route.go", Old: "\t\tif paths[j].Compare(remove) {\n\t\t\ti = j\n\t\t\tbreak\n\t\t}\n", New: "\t\tif paths[j].Compare(remove) {\n\t\t\ti = j\n\t\t}\n", Expect: "removal-takes-one-match"},
 			{Name: "removal-by-decision-equality", File: "route/route.go", Old: "\t\tif paths[j].Compare(remove) {\n", New: "\t\tif paths[j].Equal(remove) {\n", Expect: "decision-equality-is-not-identity"},
 			{Name: "children-of-a-dummy-adopted-by-one-bit", File: "routingtable/trie.go", Old: "func (n *node) insertBefore(pfx *net.Prefix, p *route.Path) *node {\n\ttmp := n\n", New: "func (n *node) adopt(c *node) {\n\tif c == nil {\n\t\treturn\n\t}\n\tif !c.route.Prefix().Addr().BitAtPosition(n.route.Pfxlen() + 1) {\n\t\tn.l = c\n\t\treturn\n\t}\n\tn.h = c\n}\n\nfunc (n *node) insertBefore(pfx *net.Prefix, p *route.Path) *node {\n\tif n.dummy {\n\t\tnw := newNode(pfx, p, n.skip-(n.route.Pfxlen()-pfx.Len()), false)\n\t\tnw.adopt(n.l)\n\t\tnw.adopt(n.h)\n\t\treturn nw\n\t}\n\ttmp := n\n", Expect: "child-slot-written-once-per-path"},
@@ -37,6 +39,8 @@ func init() {
 }
 
 func runC01(c *core.Ctx) {
+	nilChildKeepsTheAccumulator(c, "nil-child-keeps-the-accumulator")
+	replaceIsOneStep(c, "replace-is-one-step")
 	removalTakesOneMatch(c, "removal-takes-one-match")
 	decisionEqualityIsNotIdentity(c, "decision-equality-is-not-identity")
 	childSlotWrittenOncePerPath(c)
